@@ -302,6 +302,26 @@ impl<'r> G<'r> {
             let st = self.leaf_stmt(&mut inner);
             cards.push(st);
         }
+        // sometimes the closure's frame is suspended under another frame (script call or host
+        // re-entry) before it touches its captured variables again; never inside leaf functions
+        // (they are reachable from everywhere as values: a call from there could recurse)
+        if !saved_leaf && !self.pure_leaf && self.in_closure == 1 && self.rng.chance(1, 2) {
+            self.in_leaf = false;
+            let call = if self.rng.chance(1, 2) { self.call_expr(&inner, 1) } else { None };
+            self.in_leaf = true;
+            let call = match call {
+                Some(c) => Some(c),
+                None if self.cfg.host_reentry => self
+                    .leaf_fn_with_arity(0)
+                    .map(|n| Card::call_native("call0", vec![c(CardBody::Function(n))])),
+                None => None,
+            };
+            if let Some(call) = call {
+                let n = self.fresh_name("cr");
+                cards.push(Card::set_var(n.clone(), call));
+                inner.push(Var { name: n, ty: Ty::Any, assignable: false });
+            }
+        }
         // sometimes write a captured variable
         if !self.capturable.is_empty() && self.rng.chance(1, 2) {
             let pure = self.pure_leaf;
@@ -317,7 +337,12 @@ impl<'r> G<'r> {
                 cards.push(Card::set_var(v.name, e));
             }
         }
-        let ret = self.any_leaf_expr(&inner, 2);
+        let ret = if !self.capturable.is_empty() && self.rng.chance(1, 3) {
+            let v = self.rng.pick(&self.capturable.clone()).clone();
+            Card::read_var(v.name)
+        } else {
+            self.any_leaf_expr(&inner, 2)
+        };
         cards.push(Card::return_card(ret));
         self.in_leaf = saved_leaf;
         self.in_closure -= 1;
